@@ -91,6 +91,11 @@ impl EvalContext {
 
 #[cfg(feature = "verif-hooks")]
 impl EvalContext {
+    /// Identity of the generator this context draws from
+    pub(crate) fn verif_rng_id(&self) -> usize {
+        self.rng.as_ptr() as usize
+    }
+
     /// Canonical rendering of everything the context remembers (the generator state is
     /// not observable; the harness tracks it through the draw log)
     pub(crate) fn verif_key(&self) -> String {
